@@ -46,6 +46,8 @@ def run(cfg):
     mods = [py.load(cfg, f) for f in GEN_FILES]
     order_rule(R, mods)
     set_order_rule(R, [py.load(cfg, f) for f in COMPILE_PATH])
+    R.rule('R7', 'no class on the compile path fills a class-level mutable container through self', floor=8)
+    shared_state_rule(R, [py.load(cfg, f) for f in COMPILE_PATH])
     template_rule(R, mods)
     counter_rule(R, mods)
     inline_rule(cfg, R)
@@ -218,6 +220,58 @@ def set_order_rule(R, mods):
                         continue
                 R.violation('R1-set', c, m.loc(it), 'the set %s is walked without sorted() and what is computed depends on the order of the walk: '
                             'the generated text differs between interpreter runs (per-process string hash seed)' % it.id)
+
+
+def shared_state_rule(R, mods):
+    """Two compilations in one process must not see each other: a mutable container bound at class level is one object
+    shared by every instance, so a generator that fills it through self keeps the entries of the previous compilation."""
+    MUT = ('append', 'extend', 'insert', 'update', 'add', 'setdefault', 'pop', 'clear', 'remove')
+    for m in mods:
+        modn = m.rel.split('/')[-1][:-3]
+        for cname, cnode in m.classes.items():
+            shared = {}
+            for s in cnode.body:
+                tgt = val = None
+                if isinstance(s, ast.Assign) and len(s.targets) == 1 and isinstance(s.targets[0], ast.Name):
+                    tgt, val = s.targets[0].id, s.value
+                elif isinstance(s, ast.AnnAssign) and isinstance(s.target, ast.Name) and s.value is not None:
+                    tgt, val = s.target.id, s.value
+                if tgt is None:
+                    continue
+                if isinstance(val, (ast.Dict, ast.List, ast.Set, ast.DictComp, ast.ListComp, ast.SetComp)) or (
+                        isinstance(val, ast.Call) and ast.unparse(val.func).split('.')[-1] in ('dict', 'list', 'set', 'OrderedDict', 'defaultdict')):
+                    shared[tgt] = s
+            rebinds = set()
+            for q, f in m.funcs.items():
+                if f.cls == cname and q.endswith('.__init__'):
+                    for x in ast.walk(f.node):
+                        if isinstance(x, (ast.Assign, ast.AnnAssign)):
+                            for t in (x.targets if isinstance(x, ast.Assign) else [x.target]):
+                                if isinstance(t, ast.Attribute) and isinstance(t.value, ast.Name) and t.value.id == 'self':
+                                    rebinds.add(t.attr)
+            c0 = '%s.%s:class-attributes' % (modn, cname)
+            R.instance('R7', c0, m.loc(cnode))
+            for name, node in sorted(shared.items()):
+                if name in rebinds:
+                    continue
+                for q, f in m.funcs.items():
+                    if f.cls != cname:
+                        continue
+                    hit = None
+                    for x in ast.walk(f.node):
+                        def is_self_attr(n):
+                            return isinstance(n, ast.Attribute) and n.attr == name and isinstance(n.value, ast.Name) and n.value.id == 'self'
+                        if isinstance(x, ast.Subscript) and isinstance(x.ctx, ast.Store) and is_self_attr(x.value):
+                            hit = x
+                        elif isinstance(x, ast.Call) and isinstance(x.func, ast.Attribute) and x.func.attr in MUT and is_self_attr(x.func.value):
+                            hit = x
+                        elif isinstance(x, ast.AugAssign) and is_self_attr(x.target):
+                            hit = x
+                    if hit is not None:
+                        R.violation('R7', '%s.%s.%s' % (modn, cname, name), m.loc(hit),
+                                    '%s.%s is a mutable container bound at class level and %s() fills it through self: every instance in the process '
+                                    'shares it, so a second compilation starts with the tables of the first' % (cname, name, q.split('.')[-1]))
+                        break
 
 
 def placeholders(text):
@@ -518,6 +572,14 @@ SELFTEST = [
          replace='        for zone_name, eras in self.zones_map.items():\n            info_items += self.ZONE_INFOS_H_INFO_ITEM.format(', rule='R1'),
     dict(id='unsorted-python-policy-loop', file='tools/zonedb/pygenerator.py',
          find='        for name, rules in sorted(rules_map.items()):\n            policy_items +=', replace='        for name, rules in rules_map.items():\n            policy_items +=', rule='R1'),
+    dict(id='inline-maps-at-class-level', file='tools/zonedb/ingenerator.py', edits=[
+        dict(file='tools/zonedb/ingenerator.py', find='    def __init__(self, zones_map: ZonesMap, rules_map: RulesMap):',
+             replace='    zone_infos: ZoneInfoMap = {}\n    zone_policies: ZonePolicyMap = {}\n\n    def __init__(self, zones_map: ZonesMap, rules_map: RulesMap):'),
+        dict(file='tools/zonedb/ingenerator.py', find='        self.zone_infos: ZoneInfoMap = {}\n        self.zone_policies: ZonePolicyMap = {}\n', replace='')],
+         rule='R7'),
+    dict(id='inline-maps-declared-and-rebound-silent', file='tools/zonedb/ingenerator.py',
+         find='    def __init__(self, zones_map: ZonesMap, rules_map: RulesMap):',
+         replace='    zone_infos: ZoneInfoMap = {}\n    zone_policies: ZonePolicyMap = {}\n\n    def __init__(self, zones_map: ZonesMap, rules_map: RulesMap):', expect='silent'),
     dict(id='letters-set-walked-unsorted', file='tools/zonedb/argenerator.py', find='            for letter in sorted(letters):', replace='            for letter in letters:', rule='R1-set'),
     dict(id='letters-set-listed-unsorted', file='tools/zonedb/argenerator.py', find='            for letter in sorted(letters):', replace='            for letter in list(letters):', rule='R1-set'),
     dict(id='actions-dispatch-carries-state', file='tools/tzcompiler.py', find="        elif action == 'tzdb':\n            logging.info('======== Creating JSON zonedb files')",
